@@ -59,16 +59,44 @@ func properSealer(sc *scenario, e epSpec) int {
 	return e.Named
 }
 
+// sealerOf: the key that actually seals entry i.  SignWithExtendedProviders asks its key
+// fetcher BY ID, so every entry other than the main provider's gets the key chosen for the
+// FIRST entry with that ID string (a later copy cannot be given a key of its own); the main
+// provider's entries are sealed per entry (ad signer, or a foreign key through a second signing).
+func sealerOf(sc *scenario, i int) int {
+	e := sc.Eps[i]
+	if e.Named != sc.Provider {
+		for _, f := range sc.Eps {
+			if f.Named != sc.Provider && sc.epStr(f) == sc.epStr(e) {
+				e = f
+				break
+			}
+		}
+	}
+	if e.Sealer >= 0 {
+		return e.Sealer
+	}
+	return properSealer(sc, e)
+}
+
 func keysProper(sc *scenario) bool {
-	for _, e := range sc.Eps {
+	for i, e := range sc.Eps {
 		if e.Named != sc.Provider && e.Spell == spellJunk {
 			return false // the entry names no identity at all
 		}
-		if e.Sealer >= 0 && e.Sealer != properSealer(sc, e) {
+		if sealerOf(sc, i) != properSealer(sc, e) {
 			return false
 		}
 	}
 	return true
+}
+
+// sameSigned: two entries with the same ID, the same addresses and metadata and the same
+// sealing key carry interchangeable signatures
+func sameSigned(sc *scenario, i, j int) bool {
+	a, b := sc.Eps[i], sc.Eps[j]
+	sameValues := (a.LikeAd && b.LikeAd) || (!a.LikeAd && !b.LikeAd && a.NAddrs == 0 && b.NAddrs == 0 && a.MdLen == 0 && b.MdLen == 0)
+	return sc.epStr(a) == sc.epStr(b) && sameValues && sealerOf(sc, i) == sealerOf(sc, j)
 }
 
 func mainListed(sc *scenario) bool {
@@ -108,7 +136,14 @@ func expect(sc *scenario) (want string, signer int) {
 		return base, sc.Signer // no extended provider signature covers it
 	case "ep-id-earlier", "ep-dup-garbage":
 		return "fail", 0
-	case "ep-id", "ep-addr", "ep-md", "ep-swap-sigs", "ep-clear-md", "ep-clear-addrs", "ep-copy-md", "ep-copy-addrs":
+	case "ep-swap-sigs":
+		// two entries exchange signatures: nothing changes when they carry the same ID and
+		// values and are sealed by the same key (two copies of one entry)
+		if n := len(sc.Eps); n >= 2 && sameSigned(sc, m.Ep%n, (m.Ep+1)%n) {
+			return base, sc.Signer
+		}
+		return "fail", 0
+	case "ep-id", "ep-addr", "ep-md", "ep-clear-md", "ep-clear-addrs", "ep-copy-md", "ep-copy-addrs":
 		return "fail", 0
 	case "ep-attach":
 		// entries attached after signing: every entry is checked whatever the other fields
@@ -144,11 +179,8 @@ func expect(sc *scenario) (want string, signer int) {
 		// the advertisement's envelope now comes from key k: every entry must be proper
 		// with respect to the new signer (the main provider's entry sealed by k)
 		k := m.Index % nSmall
-		for _, e := range sc.Eps {
-			sealer := e.Sealer
-			if sealer < 0 {
-				sealer = properSealer(sc, e)
-			}
+		for i, e := range sc.Eps {
+			sealer := sealerOf(sc, i)
 			want := e.Named
 			if e.Named == sc.Provider {
 				want = k
@@ -410,11 +442,11 @@ func whyFail(sc *scenario) string {
 		return "mutation " + sc.Mut.Kind
 	}
 	for i, e := range sc.Eps {
-		if e.Sealer >= 0 && e.Sealer != properSealer(sc, e) {
+		if k := sealerOf(sc, i); k != properSealer(sc, e) {
 			if e.Named == sc.Provider {
-				return fmt.Sprintf("entry %d (the main provider's) is sealed by key %d, not by the ad signer %d", i, e.Sealer, sc.Signer)
+				return fmt.Sprintf("entry %d (the main provider's) is sealed by key %d, not by the ad signer %d", i, k, sc.Signer)
 			}
-			return fmt.Sprintf("entry %d names identity %d but is sealed by key %d", i, e.Named, e.Sealer)
+			return fmt.Sprintf("entry %d names identity %d but is sealed by key %d", i, e.Named, k)
 		}
 	}
 	return ""
@@ -529,9 +561,9 @@ func scenarioSig(sc *scenario) string {
 			role += "(rsa4096)"
 		}
 		seal := "proper"
-		if e.Sealer >= 0 && e.Sealer != properSealer(sc, e) {
+		if k := sealerOf(sc, i); k != properSealer(sc, e) {
 			seal = "foreign"
-			if e.Sealer == sc.Signer {
+			if k == sc.Signer {
 				seal = "adsigner"
 			}
 		}
@@ -603,11 +635,7 @@ var spellName = []string{"base58", "cidv1-base32", "cidv1-base36", "junk"}
 
 func envKeyOf(sc *scenario) int {
 	if sc.Mut.Ep >= 0 && sc.Mut.Ep < len(sc.Eps) {
-		e := sc.Eps[sc.Mut.Ep]
-		if e.Sealer >= 0 {
-			return e.Sealer
-		}
-		return properSealer(sc, e)
+		return sealerOf(sc, sc.Mut.Ep)
 	}
 	return sc.Signer
 }
